@@ -8,7 +8,24 @@ use rayon::prelude::*;
 use crate::model::{Content, State};
 
 pub fn write_file(key: &String, content: &Content, to: &PathBuf) -> std::io::Result<()> {
-    fs::write(to.clone().join(format!("{}.md", key)), content.as_str())
+    // Never truncate the note in place: if the write fails part-way (disk full, quota, kill) the
+    // file must still hold its complete old text. Write a sibling file and rename it over the
+    // note once it is complete.
+    let path = to.clone().join(format!("{}.md", key));
+    let temporary = to.clone().join(format!("{}.md.iwe-tmp", key));
+
+    let result = fs::write(&temporary, content.as_str())
+        .and_then(|_| match fs::metadata(&path) {
+            Ok(metadata) => fs::set_permissions(&temporary, metadata.permissions()),
+            Err(_) => Ok(()),
+        })
+        .and_then(|_| fs::rename(&temporary, &path));
+
+    if result.is_err() {
+        let _ = fs::remove_file(&temporary);
+    }
+
+    result
 }
 
 pub fn new_for_path(base_path: &PathBuf) -> State {
